@@ -14,11 +14,15 @@ Offs == {"in", "out", "far"}
 OffsetOf(life, age0, o) == LET rem == life - age0 IN
    IF o = "in" THEN (IF rem - 2 >= 0 THEN rem - 2 ELSE 0) ELSE IF o = "out" THEN (IF rem + 3 > 0 THEN rem + 3 ELSE 3) ELSE rem + 5000
 Init == /\ par \in [kind : {"maxage", "smaxage", "expires"}, life : Lives, age0 : {0, 30}, ageHow : {"none", "agehdr", "date"},
-                    reval : {"none", "must", "proxy"}, req : ReqKinds, off : Offs]
+                    reval : {"none", "must", "proxy"}, req : ReqKinds, off : Offs,
+                    delay : {0, 5}]   \* seconds (of Squid's clock) the origin takes to answer the storing request
         /\ (par.age0 = 0 <=> par.ageHow = "none")
         /\ pred = "?"
 Clk == OffsetOf(par.life, par.age0, par.off)
-AgeAt == Clk + par.age0
+\* Squid adds the time the origin took to answer to the age (timestampsSet); the property counts from the moment the
+\* response was sent (PAge)
+AgeAt == Clk + par.age0 + par.delay
+PAge == Clk + par.age0
 StaleAt == AgeAt >= par.life   \* squid: expires <= check_time is stale
 MustReval == par.reval # "none" \/ par.kind = "smaxage"
 \* Squid stores a response only if it stays fresh for more than 60 s after arrival (refreshIsCachable)
@@ -40,7 +44,7 @@ RNoCache == par.req \in {"nocache", "pragma"}
 RMaxAge == IF par.req = "maxage0" THEN 0 ELSE IF par.req = "maxage30" THEN 30 ELSE NoVal
 RMaxStale == IF par.req = "maxstale" THEN 0 - 2 ELSE IF par.req = "maxstale10" THEN 10 ELSE NoVal
 HitAllowed == /\ ~RNoCache /\ RMaxAge # 0
-              /\ (AgeAt > par.life + 1 => (~MustReval /\ (RMaxStale = 0 - 2 \/ (RMaxStale >= 0 /\ AgeAt <= par.life + RMaxStale))))
+              /\ (PAge > par.life + 1 => (~MustReval /\ (RMaxStale = 0 - 2 \/ (RMaxStale >= 0 /\ PAge <= par.life + RMaxStale + 1))))
 ImplRefinesP == pred = "hit" => HitAllowed
 Dump == pred # "?" => PrintT(<<"SCEN", ToJson([par |-> par, pred |-> pred, clk |-> Clk])>>)
 ====
